@@ -39,7 +39,7 @@ def intervals_wide(r, unsigned, maxn=6):
         elif out and k < 0.3:
             b = out[-1][0]
         else:
-            b = r.choice(anchors) + r.randint(0, 40)
+            b = r.choice(anchors) + r.choice([0, 0, 0, r.randint(0, 40)])     # often exactly on the anchor (type minimum!)
         b = min(max(b, lo), hi - 1)
         e = min(b + r.choice([1, 1, 2, 3, 5, 8, 13, 30]), hi)
         if r.random() < 0.12:
